@@ -38,13 +38,13 @@ INVARIANTS = ["InvCheckpointed", "InvPreCancelled", "InvOnlyExemption", "InvShie
               "InvObserver"]
 
 OP_GROUPS_QUICK = [
-    ["lim_acquire", "sleep", "sleep_until", "checkpoint", "event_wait", "tg_exit", "cond_wait"],
-    ["sem_acquire", "lock_acquire", "cond_acquire", "reduce"],
-    ["send", "receive", "run_sync", "handle_wait", "handle_await", "future_wait", "future_await"],
+    ["lim_acquire", "sem_acquire", "lock_acquire", "cond_acquire", "cond_wait", "sleep", "sleep_until"],
+    ["send", "receive", "run_sync", "handle_wait", "handle_await", "future_wait", "future_await", "reduce",
+     "event_wait", "tg_exit", "checkpoint"],
 ]
 FN_GROUPS_QUICK = [
-    ["islice", "tee", "compress", "accumulate", "batched", "groupby", "cycle", "starmap", "pairwise", "count", "repeat"],
-    ["product", "permutations", "dropwhile", "filterfalse", "takewhile", "zip_longest", "chain_from_iterable",
+    ["islice", "tee", "compress", "accumulate", "batched", "groupby", "cycle", "starmap", "pairwise", "count", "repeat",
+     "product", "permutations", "dropwhile", "filterfalse", "takewhile", "zip_longest", "chain_from_iterable",
      "combinations", "chain", "combinations_with_replacement"],
 ]
 OP_GROUPS_THOROUGH = [
@@ -129,7 +129,7 @@ def _drift_of(exp: dict, ev: dict) -> list[str]:
 
 
 def _validate(traces: list[dict], tier: str) -> list[dict]:
-    nparts = 4 if tier == "quick" else 12
+    nparts = 3 if tier == "quick" else 12
     size = max(1, (len(traces) + nparts - 1) // nparts)
     parts = [traces[i:i + size] for i in range(0, len(traces), size)]
     with ThreadPoolExecutor(max_workers=6) as ex:
